@@ -325,7 +325,20 @@ def guards_of(p: State, ev: Event) -> List[Tuple[Term, bool]]:
     for e in p.events[:idx]:
         if e.kind != 'assume' or not isinstance(e.node, (ast.If, ast.While)):
             continue
+        # a test made in another iteration of an (unrolled) loop does not govern this one
+        la = tuple(c[1] for c in e.ctx if c and c[0] == 'loop')
+        le = tuple(c[1] for c in ev.ctx if c and c[0] == 'loop')
         fa = frame(e)
+        if len(fa) <= len(fe) and la != le[:len(la)]:
+            continue
+        if len(fa) > len(fe) and fa[:len(fe)] == fe:
+            # a decision taken inside a helper that THIS statement calls (x = helper(...),
+            # return helper(...)): it decides the value the statement stores / returns
+            call = fa[len(fe)]
+            inside = {id(x) for x in ast.walk(ev.node)} if ev.node is not None else set()
+            if id(call) in inside:
+                out.append((e.data[0], e.data[1]))
+            continue
         if fa != fe[:len(fa)]:
             continue
         # the construct as seen from the test's frame: itself, or the call through which the
